@@ -148,15 +148,22 @@ func ruleGetStreamOrBack(c *Ctx, r *Rule) {
 			msg = "a path from pool.get reaches the return at " + c.pos(w.Pos()) + " without streaming the event or returning it to the pool: the event leaks and capacity shrinks for ever"
 		}
 		r.Ob(ok, c.fnName(in)+"|get->stream|back", ci.Pos(), msg)
-		// no double consumption: after a back(ev) nothing else consumes ev
-		for _, cj := range callsIn(in) {
-			if invokesMethod(cj, pr.back) && len(cj.Common().Args) == 1 && cj.Common().Args[0] == ssa.Value(ev) {
-				again, w2 := c.pathExists(in, cj, c.consumeSink(ev, 3), nil)
-				msg2 := "after pool.back(event) the event is not used again on that path"
-				if again {
-					msg2 = "after pool.back(event) the event is consumed again at " + c.pos(w2.Pos()) + " (returned twice / streamed after return)"
+		// no double consumption: after anything that consumes ev (pool.back, or a callee that streams or
+		// gives it back on every path) nothing else consumes ev on the same path
+		sink := c.consumeSink(ev, 3)
+		n := 0
+		for _, b := range in.Blocks {
+			for _, cj := range b.Instrs {
+				if !sink(cj) {
+					continue
 				}
-				r.Ob(!again, c.fnName(in)+"|no-use-after-back#"+c.ordinalKey(cj, callsIn(in)), cj.Pos(), msg2)
+				n++
+				again, w2 := c.pathExists(in, cj, sink, nil)
+				msg2 := "after the event was consumed (streamed or given back, directly or by a callee) it is not consumed again on that path"
+				if again {
+					msg2 = "after the event was consumed here it is consumed again at " + c.pos(w2.Pos()) + " (returned twice / streamed after return): the in-use count drops below the truth and one object is handed out twice"
+				}
+				r.Ob(!again, fmt.Sprintf("%s|consumed-once#%d", c.fnName(in), n), cj.Pos(), msg2)
 			}
 		}
 	}
